@@ -49,7 +49,14 @@ type item struct {
 	reach, goal Term
 }
 
+type immInfo struct {
+	fe  string // name of the element-array function
+	obj Term
+	es  string
+}
+
 type Val struct {
+	Imm   *immInfo // slice read from an immutable field: its elements are FE(obj), not heap memory
 	T     Term
 	Tuple []Val
 	Addr  *Addr
@@ -77,6 +84,7 @@ type Addr struct {
 	Glob  *ssa.Global
 	Reg   Term // region-backed arrays
 	ElemSort string
+	Imm   *immInfo
 }
 
 type pstep struct {
@@ -251,35 +259,25 @@ func (fx *FX) havoc(st *State, names []string) {
 		if n == "*" {
 			oldAlloc := fx.comp(st, "$alloc", SInt)
 			keep := map[string]Term{}
-			for k, v := range st.comps {
-				if strings.HasPrefix(k, "G:") { // ghost variables are only changed by contracts
-					keep[k] = v
+			for k := range fx.knownComps {
+				if strings.HasPrefix(k, "G:") { // ghost variables are only changed when named
+					keep[k] = fx.comp(st, k, fx.compSorts[k])
 				}
 			}
-			oldEpoch := st.epoch
 			st.comps = map[string]Term{}
 			st.epoch = fx.fresh("e")
-			for k := range fx.knownComps {
-				if strings.HasPrefix(k, "G:") {
-					if v, ok := keep[k]; ok {
-						st.comps[k] = v
-					} else {
-						st.comps[k] = fx.epochConsts[oldEpoch+"|"+k]
-						if st.comps[k].S == "" {
-							delete(st.comps, k)
-							// force creation in old epoch
-							tmp := &State{epoch: oldEpoch, comps: map[string]Term{}}
-							st.comps[k] = fx.comp(tmp, k, fx.compSorts[k])
-						}
-					}
-				}
+			for k, v := range keep {
+				st.comps[k] = v
 			}
 			na := fx.comp(st, "$alloc", SInt)
 			fx.assume(st.reach, app(">=", SBool, na, oldAlloc))
-			return
+			break
 		}
 	}
 	for _, n := range names {
+		if n == "*" {
+			continue
+		}
 		for _, k := range fx.expandCompName(n) {
 			srt := fx.compSorts[k]
 			if srt == "" {
